@@ -663,3 +663,43 @@ def chain_graph(n, back_edges=False):
         for i in range(0, n - 1, 7):
             tl[i].append((0.5, max(0, i - 3)))
     return tl, [n - 1]
+
+
+def with_huge_rewards(g, factor=2 ** 64):
+    """the same game with every reward multiplied by a power of two above sys.maxsize (rewards are
+    unbounded non-negative integers); on games with dyadic probabilities all arithmetic stays exact"""
+    return finish([r * factor for r in g["rewards"]], g["players"], exact_tl(g), g["final_states"],
+                  dict(g.get("_meta", {}), huge_rewards=factor))
+
+
+def integer_game(rng):
+    """acyclic layered game WITHOUT any float: player states over deterministic 'probabilistic' states
+    [(1, next)] (probability the integer 1) with odd integer rewards between 2^53 and 2^60: every value the
+    solver computes is an exact Python integer"""
+    depth = rng.choice([2, 3])
+    widths = [1] + [rng.randint(2, 3) for _ in range(depth - 1)] + [rng.randint(3, 4)]
+    idx, layers = 0, []
+    for w in widths:
+        layers.append(list(range(idx, idx + w)))
+        idx += w
+    lose, win = idx, idx + 1
+    players, xtl, rewards = [], [], []
+    for li, layer in enumerate(layers):
+        for s in layer:
+            if li == len(layers) - 1:
+                players.append(PR)
+                rewards.append(rng.randrange(2 ** 53 + 1, 2 ** 60, 2))
+                xtl.append([(Fr(1), win if rng.random() < 0.8 else lose)])
+            else:
+                players.append(rng.choice([P1, P2, PR]))
+                rewards.append(rng.choice([0, 1, 2, 3]))
+                nxt = layers[li + 1]
+                if players[-1] == PR:
+                    xtl.append([(Fr(1), rng.choice(nxt))])
+                else:
+                    tg = rng.sample(nxt, rng.randint(2, min(3, len(nxt))))
+                    xtl.append([(ACTIONS[j], t_) for j, t_ in enumerate(tg)])
+    players += [PR, PR]
+    rewards += [0, 0]
+    xtl += [[(Fr(1), lose)], [(Fr(1), win)]]
+    return finish(rewards, players, xtl, [win], {"family": "integer"})
